@@ -548,6 +548,32 @@ def run(case):
     obs.append(len(frames))
     lg.add(*obs)
 
+  # --- an exception the interpreter raises for the call itself: a required
+  # positional parameter nobody supplies, next to keyword names of any shape
+  if not case.get('only'):
+    def _nt(a, **kw):
+      return a
+    _nt.__name__ = _nt.__qualname__ = 'nt'
+    nt = gin.configurable('nt', module='ginsim_probes')(_nt)
+    for key in ('plain', '{x}', '{}', '{0}', 'a{', '}b'):
+      caught = None
+      try:
+        with gin.config_scope('ntscope'):
+          nt(**{key: 1})
+      except BaseException as e:  # pylint: disable=broad-except
+        caught = e
+      lg.add('natural_typeerror', key, type(caught).__name__)
+      if not isinstance(caught, TypeError):
+        v('C17.same_class', ['TypeError', type(caught).__name__,
+                             'missing-argument'],
+          'calling nt(**{%r: 1}) without its required parameter `a` reached the '
+          'caller as %s: %s (the interpreter raised TypeError)' %
+          (key, type(caught).__name__, probes.scrub(str(caught))[:200]))
+      elif 'nt' not in str(caught) or 'ntscope' not in str(caught):
+        v('C17.message_extended', ['TypeError', 'missing-argument'],
+          'nt(**{%r: 1}): message does not name configurable and scope: %s' %
+          (key, probes.scrub(str(caught))[:300]))
+
   # one violation per signature
   seen = set()
   uniq = []
